@@ -4,14 +4,14 @@ known_findings.json and seeded/*/meta.json"""
 import json, glob, os, re, collections
 R = os.path.dirname(os.path.dirname(os.path.abspath(__file__)))
 k = json.load(open(f"{R}/known_findings.json")); ents = k if isinstance(k, list) else k.get("findings", k)
-man = json.load(open(f"{R}/MANIFEST.json")); lv = {c["property_id"]: c["level_claimed"]["category"] for c in man["checks"]}
+man = json.load(open(f"{R}/MANIFEST.json")); lv = {c["property_id"]: c["level_claimed"]["category"] + (" (PARTIAL, see MANIFEST level text)" if c["level_claimed"]["text"].upper().startswith("PARTIAL") else "") for c in man["checks"]}
 fixed = collections.defaultdict(list); opn = collections.defaultdict(list)
 for e in ents:
     if e["status"] == "fixed":
         c = e.get("commit", "?")
         if c not in fixed[e["property"]]: fixed[e["property"]].append(c)
     else:
-        opn[e["property"]].append(e["signature"].split(":", 1)[-1][:70])
+        opn[e["property"]].append(e["signature"].split(":", 1)[-1][:70].replace("|", "\\|"))
 seeds = collections.Counter(); caught = collections.Counter()
 for d in glob.glob(f"{R}/seeded/*/meta.json"):
     m = json.load(open(d)); p = m["property"]; seeds[p] += 1
